@@ -27,6 +27,8 @@ REPRS = [
     ("indirect+zerolen", ["-findirect-start-ptr", "-fzero-len-input-support"]),
     ("collapse2", ["-fcollapse-transition-ranges", "--collapsed-range-length", "2"]),
     ("dynamic+u8+indirect", ["-fallocate-str-space-dynamic", "-fstrings-as-u8", "-findirect-start-ptr"]),
+    ("unsafe-index", ["-funsafe-string-indexing"]),
+    ("unsafe-index+u8", ["-funsafe-string-indexing", "-fstrings-as-u8"]),
 ]
 
 
